@@ -269,3 +269,116 @@ def c09(res, st, std_coq):
     res.assumptions += ["the trace model abstracts the parser to its events on the error list; that only disciplined traces are possible rests on the "
                         "syntactic obligations (every write to `errors` is a one-element append, handleError precedes BadNode construction)",
                         "error positions of parser errors (errorfAtToken) are sampled; lexer error ranges are proved (C03_lexer_error_range)"]
+
+
+# ---------------------------------------------------------------- properties decided on the fragment + implementation oracle
+ORACLE_WHAT = {
+    "C05": "a node position is out of range, unordered, not nested or not token-aligned",
+    "C06": "input[Pos:End] is not exactly the node's own text",
+    "C08": "a sentence of the reference grammar is rejected, or entry points disagree",
+    "C10": "a Bad node does not capture exactly the skipped tokens",
+    "C11": "a statement list does not compose from its stand-alone statements",
+    "C16": "re-spelling whitespace, comments or keyword case changes the AST",
+    "C07": "operator grouping differs from the GoogleSQL precedence table",
+}
+
+
+def valid_cases(rnd, q, n_sent):
+    cases = gens.parser_cases(rnd, 1500 if q else 30000, 0, 400 if q else 8000)
+    cases += gens.sentence_cases(rnd, n_sent)
+    return cases
+
+
+def error_cases(rnd, q):
+    g = gens.G(rnd, gens.gen_keywords())
+    out = gens.parser_cases(rnd, 3000 if q else 60000, 1000 if q else 20000, 200 if q else 4000)
+    for _ in range(3000 if q else 60000):
+        e, s = rnd.choice([("ParseExpr", g.expr().encode()), ("ParseQuery", g.query().encode()), ("ParseStatement", g.ddl().encode()),
+                           ("ParseStatement", g.dml().encode()), ("ParseType", g.typ().encode()), ("ParseExpr", ("CAST(1 AS %s)" % g.typ()).encode())])
+        toks = s.split(b" ")
+        k = rnd.randrange(5)
+        i = rnd.randrange(len(toks))
+        if k == 0:
+            del toks[i]
+        elif k == 1:
+            toks.insert(i, rnd.choice([b"*", b")", b"(", b",", b"NEW Foo {a: 1, *", b"SELECT", b"}", b"]", b"FROM", b"1a", b"x y", b"AS x.y", b">>", b"/*c*/", b"--c\n"]))
+        elif k == 2:
+            toks = toks[:i]
+        elif k == 3:
+            toks[i] = rnd.choice([b"(", b"[", b"CASE", b"WHEN", b";", b"STRUCT<", b"ARRAY<", b"foo bar", b"."])
+        else:
+            toks[i] = toks[i] + rnd.choice([b" x y", b" AS a.b", b" 1 2"])
+        out.append((e, b" ".join(toks)))
+    # broken types inside nested generics closed by '>>'
+    for inner in (b"foo bar", b"x INT64 y", b"INT64 INT64", b"", b"a.b c"):
+        for tmpl in (b"CAST(1 AS ARRAY<ARRAY<%s>>)", b"CAST(1 AS STRUCT<x ARRAY<%s>>)", b"CAST(1 AS ARRAY<STRUCT<%s>>)", b"ARRAY<STRUCT<a ARRAY<%s>>>[]", b"CAST(1 AS ARRAY<%s>)"):
+            out.append(("ParseExpr", tmpl % inner))
+            out.append(("ParseStatement", b"SELECT " + (tmpl % inner)))
+    return out
+
+
+def sampled(res, st, std_coq, extra_vo=()):
+    pid = res.pid
+    have = os.path.exists(os.path.join(vlib.COQ, "theories", "Properties", pid + ".v"))
+    if have:
+        std_coq(res, pid, st, tuple(extra_vo))
+    else:
+        res.extra["theorems_pending"] = True
+        res.obligation("go build + driver", st["go"] and st["driver"], st["log"])
+    if not (st["go"] and st["driver"]):
+        return
+    rnd = random.Random(res.seed)
+    q = res.tier == "quick"
+    if pid in ("C10",):
+        cases = error_cases(rnd, q)
+    elif pid in ("C05",):
+        cases = valid_cases(rnd, q, 4000 if q else 80000) + error_cases(rnd, q)[:3000 if q else 60000]
+    elif pid == "C11":
+        cases = list_cases(rnd, q)
+    elif pid == "C08":
+        cases = gens.parser_cases(rnd, 0, 0, 0, valid_only=True) + gens.sentence_cases(rnd, 6000 if q else 120000)
+    else:
+        cases = valid_cases(rnd, q, 4000 if q else 80000)
+    if pid != "C08" and pid != "C11":
+        for e in ("ParseExpr", "ParseStatement", "ParseQuery"):
+            cases += [(e, s) for s in gens.NEAR_MISS]
+    for e in ("ParseStatement", "ParseExpr", "ParseQuery", "ParseDDL", "ParseType"):
+        cases += [(e, s) for s in gens.regression(pid)]
+    report_oracle(res, pid, cases, ORACLE_WHAT[pid])
+    res.add_cases(len(cases), len(set(cases)), [gens.case_lines(cases[:1]).strip()[:200], gens.case_lines(cases[-1:]).strip()[:200]])
+    return cases
+
+
+def list_cases(rnd, q):
+    """';'-separated lists: corpus statements and generated sentences, with empty statements, comments and whitespace around the
+    separators, leading/trailing whitespace, EOF-sensitive forms (trailing commas)"""
+    g = gens.G(rnd, gens.gen_keywords())
+    corp = {k: [s.strip() for (kk, _, s) in gens.corpus() if kk == k] for k in ("ddl", "dml", "query", "statement")}
+    triv = [b"", b" ", b"\n", b"\n  ", b"/*c*/", b" -- x\n", b"# y\n", b"\t", b" /* a;b */ "]
+    out = []
+    for _ in range(2500 if q else 50000):
+        kind = rnd.choice(["stmt", "ddl", "dml"])
+        entry = {"stmt": "ParseStatements", "ddl": "ParseDDLs", "dml": "ParseDMLs"}[kind]
+        parts = []
+        for _ in range(rnd.randrange(0, 5)):
+            r = rnd.random()
+            if r < 0.12:
+                parts.append(b"")
+                continue
+            if kind == "stmt":
+                st = rnd.choice([rnd.choice(corp["query"]), rnd.choice(corp["statement"]), rnd.choice(corp["ddl"]), rnd.choice(corp["dml"]),
+                                 g.query().encode(), g.ddl().encode(), g.dml().encode(), b"SELECT 1,", b"SELECT a, b,"])
+            elif kind == "ddl":
+                st = rnd.choice([rnd.choice(corp["ddl"]), g.ddl().encode()])
+                if st.startswith(b"CALL"):
+                    st = b"DROP TABLE t"
+            else:
+                st = rnd.choice([rnd.choice(corp["dml"]), g.dml().encode(), b"INSERT INTO t (a, b) SELECT a, b,", b"INSERT INTO t (a) SELECT 1,"])
+            parts.append(rnd.choice(triv) + st + rnd.choice(triv))
+        s = b";".join(parts)
+        if rnd.random() < 0.4:
+            s += b";" + rnd.choice(triv)
+        if rnd.random() < 0.4:
+            s = rnd.choice([b"\n  ", b" ", b"\n", b"/*lead*/ ", b"\t"]) + s
+        out.append((entry, s))
+    return out
